@@ -3,6 +3,7 @@
 package queuebatch
 
 import (
+	"sync/atomic"
 	"testing"
 	"testing/synctest"
 )
@@ -18,7 +19,11 @@ func TestVerifC01Block(t *testing.T) {
 	defer out.Close()
 	out.Linef("model c01-pq 1")
 	n := vN(500)
+	var curCase atomic.Int64
+	vC01Watchdog(out, &curCase)
 	for _, c := range vCases(n) {
+		curCase.Store(int64(c))
+		vC01Progress.Add(1)
 		synctest.Test(t, func(t *testing.T) { vC01BlockCase(out, c) })
 	}
 }
